@@ -467,6 +467,19 @@ func check(c discCase) *rp.Fail {
 	return f
 }
 
+// cfgName: the configured name of controller i - plain, or what people and configuration files really produce: padded with blanks,
+// tabs, a trailing CR, no-break / ideographic spaces, other scripts, empty, very long. An entry carries the configured name.
+func cfgName(t *rapid.T, i int) string {
+	switch rapid.IntRange(0, 3).Draw(t, "name.kind") {
+	case 0:
+		return fmt.Sprintf("Controller %d", i)
+	case 1:
+		pad := []string{" ", "  ", "\t", "\r", "\n", "\r\n", "\u00a0", "\u3000", "\u2003", ""}
+		return rapid.SampledFrom(pad).Draw(t, "name.lead") + fmt.Sprintf("Gate %d", i) + rapid.SampledFrom(pad).Draw(t, "name.trail")
+	}
+	return gen.Name(t, "name")
+}
+
 func genCase(layer string) func(t *rapid.T) discCase {
 	return func(t *rapid.T) discCase {
 		c := discCase{Layer: layer}
@@ -532,7 +545,7 @@ func genCase(layer string) func(t *rapid.T) discCase {
 		for i, s := range serials {
 			if !seen[s] && rapid.Bool().Draw(t, "configured") {
 				seen[s] = true
-				c.Cfg.Devices = append(c.Cfg.Devices, hook.DeviceCfg{Name: fmt.Sprintf("Controller %d", i), Serial: s, HasAddr: rapid.Bool().Draw(t, "has.addr"), IP: [4]byte{10, 0, 0, byte(i)}, Port: 60000, Protocol: "udp", TZ: gen.DeviceTZ(t, "tz")})
+				c.Cfg.Devices = append(c.Cfg.Devices, hook.DeviceCfg{Name: cfgName(t, i), Serial: s, HasAddr: rapid.Bool().Draw(t, "has.addr"), IP: [4]byte{10, 0, 0, byte(i)}, Port: 60000, Protocol: "udp", TZ: gen.DeviceTZ(t, "tz")})
 			}
 		}
 		c.Cfg.Devices = append(c.Cfg.Devices, hook.DeviceCfg{Name: "Silent", Serial: 1, TZ: gen.DeviceTZ(t, "tz.silent")})
